@@ -153,6 +153,13 @@ type PathSample struct {
 	End       string            `json:"end"`
 }
 
+var samplePCMax = func() int {
+	if os.Getenv("GOSYM_PCMAX") != "" {
+		return 200
+	}
+	return 8
+}()
+
 var theEx *Explorer
 var theInterp *interpreter
 
@@ -401,15 +408,27 @@ func (ex *Explorer) panicIf(bad *Term, msg string) {
 	ex.obligation("panic: "+msg, mkNot(bad), "panic", ex.where())
 }
 
+// allocViolation: a client-controlled element count above this is reported
+// as an allocation bomb (the native replay runs under a 4 GiB address-space
+// limit, so it dies with makeslice/out-of-memory).
+const allocViolation = int64(1) << 32
+
 func (ex *Explorer) allocCheck(n *Term) {
-	bad := mkCmp(OpSlt, mkConst(64, uint64(ex.allocLimit)), n)
+	bad := mkCmp(OpSlt, mkConst(64, uint64(allocViolation)), n)
 	if bad.op == OpConst {
 		if bad.val != 0 {
 			ex.allocBomb(int64(n.val))
 		}
 		return
 	}
-	ex.obligation(fmt.Sprintf("allocation of more than %d elements from client-controlled size", ex.allocLimit), mkNot(bad), "alloc", ex.where())
+	ex.obligation(fmt.Sprintf("allocation of more than 2^32 elements from client-controlled size"), mkNot(bad), "alloc", ex.where())
+	// sizes between the enumeration bound and 2^32 are not explored
+	if !ex.replayPos() {
+		mid := mkCmp(OpSlt, mkConst(64, uint64(ex.allocLimit)), n)
+		if res, _ := ex.solver.Check(ex.pc, mid, false); res != Unsat {
+			ex.Unsupported[fmt.Sprintf("symbolic allocation size above %d elements is not enumerated (sizes up to 2^32 are outside the claim)", ex.allocLimit)]++
+		}
+	}
 }
 
 func (ex *Explorer) allocBomb(n int64) {
@@ -648,8 +667,8 @@ func (ex *Explorer) sample(end pathEnd) PathSample {
 		s.End += ": " + end.msg
 	}
 	for i, c := range ex.pc {
-		if i >= 8 {
-			s.PC = append(s.PC, fmt.Sprintf("… (%d more conjuncts)", len(ex.pc)-8))
+		if i >= samplePCMax {
+			s.PC = append(s.PC, fmt.Sprintf("… (%d more conjuncts)", len(ex.pc)-samplePCMax))
 			break
 		}
 		str := c.String()
